@@ -64,7 +64,7 @@ pub struct Case {
 }
 
 pub const ECDSA: [u32; 6] = [0x01, 0x02, 0x03, 0x81, 0x82, 0x83];
-pub const SCHNORR: [SchnorrSighashType; 7] = [
+pub const SCHNORR: [SchnorrSighashType; 8] = [
     SchnorrSighashType::Default,
     SchnorrSighashType::All,
     SchnorrSighashType::None,
@@ -72,6 +72,8 @@ pub const SCHNORR: [SchnorrSighashType; 7] = [
     SchnorrSighashType::AllPlusAnyoneCanPay,
     SchnorrSighashType::NonePlusAnyoneCanPay,
     SchnorrSighashType::SinglePlusAnyoneCanPay,
+    // a type value the library names but consensus does not define: it carries no ANYONECANPAY flag, so it needs all prevouts
+    SchnorrSighashType::Reserved,
 ];
 
 #[derive(Debug, PartialEq, Eq, Clone)]
@@ -156,7 +158,7 @@ fn run_query<R: Deref<Target = Transaction>>(cache: &mut SighashCache<R>, q: &Qu
             }
         }
         Kind::Taproot | Kind::TaprootKeySpend | Kind::TaprootScriptSpend => {
-            let ty = SCHNORR[q.ty % 7];
+            let ty = SCHNORR[q.ty % 8];
             let annex = if q.annex && q.kind == Kind::Taproot { Some(Annex::new(&annex_bytes).expect("0x50 prefix")) } else { None };
             let leaf = match q.kind {
                 Kind::Taproot if q.leaf => Some((leaf_hash, codesep)),
@@ -245,7 +247,7 @@ fn draw_query(p: &mut Prng, n_in: usize, scenario: &str) -> Option<Query> {
     } else {
         None
     };
-    Some(Query { kind, idx, ty: p.usize_below(7), seed: p.u64(), prevouts, annex: p.chance(1, 3), leaf: p.chance(1, 2), io, fault_at_1024 })
+    Some(Query { kind, idx, ty: if p.chance(1, 12) { 7 } else { p.usize_below(7) }, seed: p.u64(), prevouts, annex: p.chance(1, 3), leaf: p.chance(1, 2), io, fault_at_1024 })
 }
 
 impl World for SighashWorld {
@@ -280,7 +282,7 @@ impl World for SighashWorld {
                         _ => PrevoutForm::All,
                     };
                     if p.coin() {
-                        q2.ty = p.usize_below(7);
+                        q2.ty = p.usize_below(8);
                     }
                     ops.push(Op::Q(q2));
                 }
@@ -310,7 +312,11 @@ impl World for SighashWorld {
             for (step, op) in case.ops.iter().enumerate() {
                 match op {
                     Op::WitnessPush { idx, seed, len } => {
-                        let data = Prng::from_u64(*seed).bytes(*len);
+                        let mut data = Prng::from_u64(*seed).bytes(*len);
+                        // one push in four looks like an annex (first byte 0x50): still only a witness item
+                        if seed % 4 == 0 && !data.is_empty() {
+                            data[0] = 0x50;
+                        }
                         ctx.ev("witness_mut", *idx as u64);
                         ctx.sig("wm");
                         ctx.nontrivial = true;
@@ -351,7 +357,7 @@ impl World for SighashWorld {
                         }
                         let kname = format!("{:?}", q.kind);
                         ctx.sig(&kname);
-                        ctx.sig_n("ty", q.ty as u64 % 7);
+                        ctx.sig_n("ty", q.ty as u64 % 8);
                         // ---- reference: a fresh cache, this query alone, perfect writer
                         let encode_form = q.io.is_some();
                         let reference = {
@@ -412,7 +418,7 @@ impl World for SighashWorld {
                         }
                         // ---- second sentence of the property: One vs All
                         if kind_bit == 4 && q.idx < shadow.input.len() && matches!(q.prevouts, PrevoutForm::One | PrevoutForm::All) && !faulty {
-                            let acp = q.ty % 7 >= 4;
+                            let acp = (4..=6).contains(&(q.ty % 8));
                             let mut other = q.clone();
                             other.prevouts = if q.prevouts == PrevoutForm::One { PrevoutForm::All } else { PrevoutForm::One };
                             other.io = None;
@@ -428,7 +434,7 @@ impl World for SighashWorld {
                                 (a, b)
                             };
                             let (r_one, r_all) = if q.prevouts == PrevoutForm::One { (r_this, r_other) } else { (r_other, r_this) };
-                            let tyname = format!("sighash_type={:?}", SCHNORR[q.ty % 7]);
+                            let tyname = format!("sighash_type={:?}", SCHNORR[q.ty % 8]);
                             if acp {
                                 ctx.probe("one_vs_all_compared");
                                 // only meaningful when the All form succeeds (e.g. SINGLE without a matching output errs on both)
